@@ -640,7 +640,7 @@ impl Stringify for Element {
             } => {
                 stringifier.write_str("slot")?;
                 write_slot_and_slot_values(stringifier, &common.slot, &common.slot_value_refs)?;
-                if !name.1.is_empty() {
+                if !is_empty_value(&name.1) {
                     write_named_attr(stringifier, "name", &name.0, &name.1)?;
                 }
                 for attr in values.iter() {
